@@ -2,6 +2,7 @@
 from __future__ import annotations
 
 import itertools
+from fractions import Fraction
 
 from .. import dag
 from ..arr import Arr
@@ -43,6 +44,8 @@ class Card(Opaque):
 
 
 class MockEko(Opaque):
+    _real = "eko.io.struct.EKO"  # members not set here are the real archive's properties
+
     def __init__(self, name, store, init=None):
         self.name = name
         self.store = dict(store)
@@ -51,6 +54,7 @@ class MockEko(Opaque):
         self.copied_to = None
         self.approx_calls = []
         self.operator_card = Card()
+        self.operator_card._real = "eko.io.runcards.OperatorCard"
         self.operator_card.init = init
         self.match = None
 
@@ -70,6 +74,18 @@ class MockEko(Opaque):
 
     def items(self):
         return list(self.store.items())
+
+    # read-only views the archive class offers besides item access
+    @property
+    def evolgrid(self):
+        return list(self.store)
+
+    @property
+    def mu2grid(self):
+        return [ep[0] for ep in self.store]
+
+    def __iter__(self):
+        return iter(list(self.store))
 
     def deepcopy(self, path):
         self.copied_to = path
@@ -97,16 +113,19 @@ def run(chk):
     src = load()
     chk.rule_text = "stored == later . earlier on the combined index; error == |later||d earlier| + |d later||earlier|; bookkeeping"
     fp = src.func("ekobox.utils.ekos_product")
-    mu1 = (dag.sym("mu1sq"), 5)
-    t1, t2, t3 = (dag.sym("t1sq"), 5), (dag.sym("t2sq"), 5), (dag.sym("t3sq"), 6)
-    other = (dag.sym("othersq"), 4)
+    # exact rational scales (membership tests on lists of scales must be decidable)
+    MU1 = Fraction(3)
+    mu1 = (MU1 ** 2, 5)
+    t1, t2, t3 = (Fraction(16), 5), (Fraction(25), 5), (Fraction(36), 6)
+    other = (Fraction(4), 4)
+    t4 = (other[0], 5)  # same scale as a point of the earlier EKO, other flavour number: a different target, must be composed
     n_id = 0
     for inplace, err_ini, err_fin in itertools.product((True, False), (True, False), (True, False)):
         pe = PE(src)
         earlier = mk_op(src, "A", err_ini)
         ini = MockEko("ini", {mu1: earlier, other: mk_op(src, "X", True), t2: mk_op(src, "KEEP", True)})
         ini.match = mu1
-        fin = MockEko("fin", {t1: mk_op(src, "B1", err_fin), t2: mk_op(src, "B2", err_fin), t3: mk_op(src, "B3", err_fin)}, init=(dag.sym("mu1"), 5))
+        fin = MockEko("fin", {t1: mk_op(src, "B1", err_fin), t2: mk_op(src, "B2", err_fin), t3: mk_op(src, "B3", err_fin), t4: mk_op(src, "B4", err_fin)}, init=(MU1, 5))
         copy_ = MockEko("copy", ini.store)
         edits = []
 
@@ -128,15 +147,15 @@ def run(chk):
         ep0 = ini.approx_calls[0][0] if ini.approx_calls else None
         ok = len(ini.approx_calls) == 1 and isinstance(ep0, tuple) and ep0[1] == 5 and ini.approx_calls[0][1] is rt and ini.approx_calls[0][2] is at
         if ok:
-            z, _ = dag.is_zero_fp([dag.sub(dag.tonode(ep0[0]), dag.power(dag.sym("mu1"), 2))], chk.seed, 2)
+            z, _ = dag.is_zero_fp([dag.sub(dag.tonode(ep0[0]), dag.tonode(MU1 ** 2))], chk.seed, 2)
             ok = z
         chk.decide(ok, "earlier-operator-is-the-matched-point", fp.qname, f"{inst}: the earlier EKO is searched with {ini.approx_calls}; required "
                    f"once, at (mu0^2, nf) of the later EKO's initial point with the caller's tolerances", where=fp.where, instance=inst)
-        chk.decide(set(dest.written) == {t1, t3} and (inplace or (ini.copied_to == path and edits == [path] and copy_.closed and not ini.written)),
+        chk.decide(set(dest.written) == {t1, t3, t4} and (inplace or (ini.copied_to == path and edits == [path] and copy_.closed and not ini.written)),
                    "product-bookkeeping", fp.qname, f"{inst}: written {list(dest.written)} into {dest.name}; copy to {ini.copied_to}, opened {edits}, "
-                   f"closed={copy_.closed}; required: only targets absent from the earlier EKO, into the earlier EKO (in place) or into the "
+                   f"closed={copy_.closed}; required: exactly the (scale, nf) targets absent from the earlier EKO, into the earlier EKO (in place) or into the "
                    f"archive copied to and opened at `path`, closed afterwards", where=fp.where, instance=inst)
-        for tn in (t1, t3):
+        for tn in (t1, t3, t4):
           if tn not in dest.written:
             continue
           inst = f"{inst0},target={tn[0]}"
@@ -188,7 +207,7 @@ def _refusal(chk, src, fp, mu1, t1):
     pe = PE(src)
     ini = MockEko("ini", {mu1: mk_op(src, "A", True)})
     ini.match = None
-    fin = MockEko("fin", {t1: mk_op(src, "B1", True)}, init=(dag.sym("mu1"), 5))
+    fin = MockEko("fin", {t1: mk_op(src, "B1", True)}, init=(Fraction(3), 5))
     try:
         pe.call(fp.qname, [ini, fin], {})
         chk.fail("unmatched-initial-point-is-refused", fp.qname, "no matching point: the product is computed anyway", where=fp.where)
